@@ -100,7 +100,10 @@ def ref_pdu(a, v):
             n = p.put_bytes(pos, v)
         elif dtp in odxref.STRINGS:
             codec = odxref.codec_of(dtp, enc, hl)
-            raw = v.encode(codec)
+            try:
+                raw = v.encode(codec)
+            except UnicodeEncodeError:
+                raise odxref.Reject("unencodable")
             if len(raw) * 8 != bl or bitpos:
                 return None
             n = p.put_bytes(pos, raw)
@@ -125,6 +128,14 @@ def ref_pdu(a, v):
             two = dtp == "A_UNICODE2STRING"
             term = {"ZERO": [0, 0] if two else [0], "HEX-FF": [0xFF, 0xFF] if two else [0xFF],
                     "END-OF-PDU": []}[a["term"]]
+            # a value must not contain the (aligned) termination sequence after MIN-LENGTH: the
+            # reader would stop there
+            tl = len(term)
+            if tl:
+                hits = [core.frozen(raw[o:o + tl]) == bytes(term)
+                        for o in range(0, len(raw) - tl + 1) if o >= a["min"] and o % tl == 0]
+                if hits and s_or(*hits):
+                    raise odxref.Reject("value contains the termination sequence")
             n = p.put_bytes(pos, raw)
             at_end = not a.get("tail", True)
             if a["term"] == "END-OF-PDU" and not at_end:
@@ -157,6 +168,8 @@ def run_atom(sx, cfg, env):
     indom = None
     if dtp in INT_TYPES and a.get("dct", "std") == "std" and a.get("mask") is None:
         indom = odxref.int_domain(dtp, a.get("enc"), a["bl"], v)
+    if prop == "C03":
+        return run_atom_c03(sx, cfg, env, v, indom)
     if prop in ("C01", "C02", "C08") and indom is not None:
         # these properties speak about values that are representable; what happens to the
         # others is C04's business
@@ -224,6 +237,39 @@ def run_atom(sx, cfg, env):
         nb = value_bits(a)
         if vsl is not None and nb is not None:
             sx.require(vsl == nb, "parameter-static-length")
+
+
+def run_atom_c03(sx, cfg, env, v, indom):
+    """decode -> encode on PDUs built by the reference interpreter from every internal value"""
+    from odxtools.exceptions import OdxError
+    rq = env["rq"]
+    if indom is not None:
+        sx.assume(indom)
+    try:
+        rp = ref_pdu(cfg, v)
+    except odxref.Reject:
+        sx.cover("not-representable")
+        return
+    if rp is None or rp.overlap:
+        sx.cover("no-reference")
+        return
+    msg = rp.result()
+    sx.observe("msg", msg)
+    try:
+        dec = rq.decode(msg)
+    except Exception as e:  # noqa: BLE001
+        sx.observe("decode-exception", type(e).__name__)
+        sx.fail("canonical-pdu-decodes")
+        return
+    try:
+        pdu2 = rq.encode(**dec)
+    except Exception as e:  # noqa: BLE001
+        sx.observe("encode-exception", type(e).__name__)
+        sx.fail("decoded-values-encode")
+        return
+    sx.cover("accepted")
+    sx.require(len(pdu2) == len(msg), "decode-then-encode-reproduces-the-pdu")
+    sx.require(core.frozen(pdu2) == msg, "decode-then-encode-reproduces-the-pdu")
 
 
 def _require_same(sx, a, got, want, label):
